@@ -83,7 +83,8 @@ Definition enc_row (cells : list N) : str := map par_enc cells.
 (* a segment: the spacing attributes in front of it (colour 0..7, size 12..15) and its character cells *)
 Record rseg := mkRseg { sg_codes : list N; sg_cells : list N }.
 Record rowspec := mkRowspec {
-  rw_pre : list N;             (* cells in front of the start box: anything but spacing attributes and box codes *)
+  rw_pre : list N;             (* cells in front of the start box: anything but a start box; the spacing attributes among
+                                  them apply to the boxed text *)
   rw_boxes : nat;              (* further start-box codes after the first *)
   rw_segs : list rseg;
   rw_end : option (list N)     (* Some junk: end box followed by cells that are not spacing attributes or start box *)
@@ -123,7 +124,8 @@ Fixpoint seg_runs (c : list str) (s : tsty unit) (segs : list rseg) : list trunT
     | t => mkTrun t s' (count_lead 32 txt) (count_lead 32 (rev txt)) :: seg_runs c s' r
     end
   end.
-Definition row_runs (c : list str) (r : rowspec) : list trunT := seg_runs c (tsty0 unit tt) (rw_segs r).
+Definition pre_style (r : rowspec) : tsty unit := fold_left apply_code (filter is_attr (rw_pre r)) (tsty0 unit tt).
+Definition row_runs (c : list str) (r : rowspec) : list trunT := seg_runs c (pre_style r) (rw_segs r).
 
 (* every segment after the first begins with an attribute that starts a new run; cells are text cells *)
 Fixpoint segs_ok (first : bool) (s : tsty unit) (segs : list rseg) : bool :=
@@ -134,9 +136,9 @@ Fixpoint segs_ok (first : bool) (s : tsty unit) (segs : list rseg) : bool :=
     && (first || match sg_codes g with v :: _ => code_effective s v | [] => false end)
     && segs_ok false (fold_left apply_code (sg_codes g) s) r
   end.
-Definition junk_cell (v : N) : bool := negb (is_attr v) && negb (v =? 11) && negb (v =? 10).
+Definition junk_cell (v : N) : bool := negb (v =? 11).
 Definition rowspec_ok (r : rowspec) : bool :=
-  forallb junk_cell (rw_pre r) && segs_ok true (tsty0 unit tt) (rw_segs r)
+  forallb junk_cell (rw_pre r) && segs_ok true (pre_style r) (rw_segs r)
   && match rw_end r with Some j => forallb (fun v => negb (is_attr v) && negb (v =? 11)) j | None => true end.
 
 (* ---- what a data unit is, read with the standard's decoders ---- *)
